@@ -323,15 +323,28 @@ class Mitm:
     at the source, in the server Transport's _send_message (CorruptingServer) - the harness owns the server.
     `alter` = name in ALTERATIONS, or a callable edit(mitm, src, ptype, payload) -> new payload | None (C08)."""
     def __init__(self, kex, hostalg, alter="none", rnd=None, at=0):
-        self.kex, self.fam, self.hostalg, self.alter, self.rnd, self.at = kex, KEX_FAMILY[kex], hostalg, alter, rnd, at
+        # kex: one method name, or the list of methods negotiated exchange by exchange (the last one repeats)
+        self.kexes = [kex] if isinstance(kex, str) else list(kex)
+        self.hostalg, self.alter, self.rnd, self.at = hostalg, alter, rnd, at
         self.wire = {}
         self.encrypted = {"a": False, "b": False}
         self.applied = None           # (field, old, new) when an edit was made
         self.sent_types = {"a": [], "b": []}      # plaintext packet types sent by each side (before its NEWKEYS)
-        self.reply_type = 33 if self.fam == "gex" else 31
         self.exchange = 0             # index of the exchange whose reply has not passed yet
         self.server = None            # the server Transport (for H and the real host key), set by run_kex
         self.cur = {}                 # group of the exchange in progress (gex)
+
+    @property
+    def kex(self):
+        return self.kexes[min(self.exchange, len(self.kexes) - 1)]
+
+    @property
+    def fam(self):
+        return KEX_FAMILY[self.kex]
+
+    @property
+    def reply_type(self):
+        return 33 if self.fam == "gex" else 31
 
     def __call__(self, link, src, n, data):
         if data[:4] == b"SSH-":
@@ -428,9 +441,10 @@ class Mitm:
                 t = self.server
                 new = other_key_signature(t.host_key_type, bytes(t.H))
                 self.applied, sig = (a, len(sig), len(new)), new
+            fam = self.fam
             self.exchange += 1
             w["ks"], w["sig"] = ks, sig
-            if self.fam in ("dh", "gex"):
+            if fam in ("dh", "gex"):
                 w["f"] = pub
                 return bytes([ptype]) + w_string(ks) + w_mpint(pub) + w_string(sig)
             w["qs"] = pub
@@ -494,7 +508,9 @@ def kex_record(s, mitm, rekeys_done, client_ok, server_ok):
         c = cs[i] if i < len(cs) else None
         v = ver[i] if i < len(ver) else None
         sv = ss[i] if i < len(ss) else None
-        ex = {"n": i,
+        eng = (c or sv or [None] * 6)[5]
+        eng = FAST_KEX if eng == "KexCurve25519" else eng
+        ex = {"n": i, "engine": eng or "", "meth": KEX_HASH.get(eng, "-"),
               "c_set": c is not None, "s_set": sv is not None,
               "kc": I(("K", c[1])) if c else 0, "ks": I(("K", sv[1])) if sv else 0,
               "hc": I(("H", c[2])) if c else 0, "hs": I(("H", sv[2])) if sv else 0,
@@ -509,7 +525,7 @@ def kex_record(s, mitm, rekeys_done, client_ok, server_ok):
             except KeyError:
                 ex["hstruct"] = False
         exchanges.append(ex)
-    return {"kex": s.kex, "hostalg": s.hostalg, "alter": mitm.alter if isinstance(mitm.alter, str) else "custom",
+    return {"kex": s.kex, "kexes": list(mitm.kexes), "hostalg": s.hostalg, "alter": mitm.alter if isinstance(mitm.alter, str) else "custom",
             "applied": mitm.applied is not None, "alter_at": mitm.at, "rekeys": rekeys_done,
             "client_ok": bool(client_ok), "server_ok": bool(server_ok),
             "client_active": bool(s.tc.is_active()),
@@ -522,9 +538,14 @@ def kex_record(s, mitm, rekeys_done, client_ok, server_ok):
 def run_kex(kex, hostalg, alter="none", rekeys=0, rnd=None, traffic=True, at=0):
     """one real session: the first exchange and `rekeys` re-exchanges (alternately initiated by client and server,
     a little channel traffic in between); in exchange number `at` one field of the server's reply is altered
-    (at = 0: on the wire, at >= 1: at the server end); the session is driven until exchange `at` has been tried"""
-    m = Mitm(kex, hostalg, alter, rnd, at=at)
-    s = KSession(kex=kex, hostalg=hostalg, link=ns.Link(m), server_cls=CorruptingServer)
+    (at = 0: on the wire, at >= 1: at the server end); the session is driven until exchange `at` has been tried.
+    kex: one method name, or a list - exchange i negotiates kex[i] (both peers' security options are changed
+    before the re-exchange is started), so consecutive exchanges may use hashes of different digest sizes"""
+    kexes = [kex] if isinstance(kex, str) else list(kex)
+    m = Mitm(kexes, hostalg, alter, rnd, at=at)
+    s = KSession(kex=kexes[0], hostalg=hostalg, link=ns.Link(m), server_cls=CorruptingServer)
+    if any(KEX_FAMILY[k] == "gex" for k in kexes):
+        s.ts._modulus_pack = gex_pack()
     s.ts.mitm = m
     m.server = s.ts
     done = 0
@@ -536,6 +557,9 @@ def run_kex(kex, hostalg, alter="none", rekeys=0, rnd=None, traffic=True, at=0):
             for i in range(rekeys):
                 who = s.tc if i % 2 == 0 else s.ts
                 n0 = len(s.tc.events("newkeys_in")), len(s.ts.events("newkeys_in"))
+                nxt = kexes[min(i + 1, len(kexes) - 1)]
+                for t in (s.tc, s.ts):
+                    t.get_security_options().kex = (nxt,)
                 try:
                     who.renegotiate_keys()
                 except Exception as e:         # the exchange was refused: the transports are going down
